@@ -2,6 +2,7 @@
    (HashModel.v): container kinds, the operation alphabet of a history over several
    container variables, results/observations, and a few list helpers.  No proofs here. *)
 From Coq Require Import ZArith List Bool.
+From Hash Require Import Gen_Hash.
 Import ListNotations.
 Local Open Scope Z_scope.
 
@@ -70,7 +71,8 @@ Definition pool_default : Z := 77.
 Definition ins_value (kd : kind) (v : Z) : Z :=
   match kd with KPool => pool_default | _ => v end.
 
-Definition default_capacity : Z := 500.
+(* capacity(500) in the default and copy constructors: regenerated from the headers on every run (Gen_Hash.v) *)
+Definition default_capacity : Z := gen_default_capacity.
 
 (* observation of one container variable: size(), isEmpty(), the iteration key:value *)
 Definition tobs (K : Type) : Type := (Z * bool * list (K * Z))%type.
